@@ -110,6 +110,35 @@ def _try_to_reorder(
     return _wrapper
 
 
+def _suspend_reordering(
+        func:
+            _CallablePR
+        ) -> _CallablePR:
+    """Decorator that disables reordering requests in `func`.
+
+    For callables that cannot be restarted after
+    a reordering, for example those that change the
+    variable order themselves.
+    """
+    @_ft.wraps(func)
+    def _wrapper(
+            bdd:
+                'BDD',
+            *args,
+            **kwargs
+            ) -> _Ret:
+        last_len = bdd._last_len
+        bdd._last_len = None
+        try:
+            return func(
+                bdd,
+                *args,
+                **kwargs)
+        finally:
+            bdd._last_len = last_len
+    return _wrapper
+
+
 class _ReorderingContext:
     """Context manager that tracks decorator nesting."""
 
@@ -1629,6 +1658,7 @@ class BDD(dd._abc.BDD[_Ref]):
                 continue
             self._pred[t] = u
 
+    @_suspend_reordering
     def swap(
             self,
             x:
